@@ -33,7 +33,10 @@ def run_instance(inst, tier):
         return res
     jds = inst["jds"]
     small = {k: inst[k] for k in ("kind", "cfg", "cfg_name", "jds")}
-    for path in PATHS[inst["kind"]]:
+    paths = list(PATHS[inst["kind"]])
+    if 2 <= inst["arrangements"] <= 24:
+        paths.append(f"{inst['kind']}-direct-twice")   # second generation on the same generator object
+    for path in paths:
         first = []
         n_motifs = [0]
 
